@@ -117,6 +117,12 @@ def run(chk, w):
         for i in f.calls():
             if i.callee in locks.INIT:
                 a = i.args[0]
+                if a.get("k") == "inst":
+                    # `for (i = 0; i < N; i++) pthread_mutex_init(table[i], NULL);` over a constant table of lock addresses
+                    for nm in (locks.table_locks(P, f, a, None) or []):
+                        inits[nm].append((f, i))
+                        if i.args[1].get("k") != "null":
+                            chk.violation("C11-INIT", f.name, nm, i.loc(), "lock initialised with a non-default attribute; mode assumptions do not hold")
                 if a.get("k") == "global":
                     inits[a["name"]].append((f, i))
                     if i.args[1].get("k") != "null":
@@ -156,6 +162,8 @@ def run(chk, w):
                 for i in fx.calls():
                     if i.callee in locks.INIT and i.args[0].get("k") == "global":
                         init_here.add(i.args[0]["name"])
+                    elif i.callee in locks.INIT and i.args[0].get("k") == "inst":
+                        init_here |= set(locks.table_locks(P, fx, i.args[0], None) or [])
                     if i.callee == "pthread_create":
                         creates = True
             acq = set()
